@@ -125,8 +125,10 @@ func (s *UtxoStore) AddCredits(tx mwdb.DBTransaction, allBalances map[string]mas
 
 	// mined tx
 	for _, rel := range rec.RelevantTxOut {
+		// a coinbase output matures like any coinbase AND keeps the lock of its own script
+		// (staking / binding): whichever is longer
 		maturity := rel.PkScript.Maturity()
-		if isCoinBase {
+		if isCoinBase && consensus.CoinbaseMaturity > maturity {
 			maturity = consensus.CoinbaseMaturity
 		}
 
